@@ -164,6 +164,13 @@ pub struct Built {
 
 /// build the problems of a task case; Err(outcome) when the case has to be skipped
 pub fn build(case: &TaskCase, known_shapes: bool) -> Result<Built, Outcome> {
+    build_mode(case, known_shapes, false)
+}
+
+/// `symbol_like_predicate`: one external task in four names symbolic constants like a unary predicate of
+/// the task and like that name followed by a digit or an upper-case letter (the problems of such tasks are
+/// ill-typed on the unchanged tree, a recorded finding of C09, and are skipped by the caller)
+pub fn build_mode(case: &TaskCase, known_shapes: bool, symbol_like_predicate: bool) -> Result<Built, Outcome> {
     match case {
         TaskCase::Strong { left, right, mu, choices } => {
             let mut c = Chooser::new(choices.clone());
@@ -201,6 +208,10 @@ pub fn build(case: &TaskCase, known_shapes: bool) -> Result<Built, Outcome> {
                     names.placeholders.retain(|p| p.0 != "k");
                     names.placeholders.insert(0, ("k".into(), fol::Sort::Symbol));
                 }
+            }
+            if symbol_like_predicate && choices.len() > 160 && c.aux(97, 4) == 0 {
+                let o = names.outputs[0].0.clone();
+                names.symbols = vec![o.clone(), format!("{o}0"), format!("{o}A"), "u".into()];
             }
             let mut task = gt::external_task_with(&mut c, names);
             let flags = gt::flags(&mut c);
@@ -468,7 +479,7 @@ impl Check for C12 {
         "accepted strong and external tasks as in C09 (symbols with common prefixes, digits and upper-case letters after the prefix, symbols renamed because of a 0-ary predicate); for every problem: (a) the symbol_order_* axioms mention exactly the declared symbolic constants, form one connected chain, and every link is true in the standard order when each constant is read as the source symbol it stands for; (b) every transition_axiom_* is true in I_(H,T) for a random H subset-of T, and there is one per predicate; (c) every other axiom that does not stem from the input files is a preamble axiom; non-trivial = the problem has at least 2 symbolic constants or a transition axiom with H != T; distinct by the auto-generated part of the problem text".into()
     }
     fn run(&self, case: &OwnCase) -> Outcome {
-        let built = match build(&case.task, false) {
+        let built = match build_mode(&case.task, false, true) {
             Ok(b) => b,
             Err(_) => return Outcome::skip("task refused (reported by C09)"),
         };
@@ -831,3 +842,73 @@ impl Check for Preamble {
 
 #[allow(dead_code)]
 fn unused(_: Flags) {}
+
+// ---------------------------------------------------------------------------------------
+// C09: problems of tasks with a proof outline (definitions, lemmas, inductive lemmas)
+
+pub struct WithOutline;
+
+#[derive(Clone, Debug)]
+pub struct OutlineCase {
+    pub task: Vec<u16>,
+    pub outline: Vec<u16>,
+}
+
+impl Check for WithOutline {
+    type Case = OutlineCase;
+    fn name(&self) -> &'static str {
+        "well-formed-with-outline"
+    }
+    fn cases(&self, tier: Tier) -> usize {
+        tier.pick(15_000, 300_000)
+    }
+    fn strategy(&self, _tier: Tier) -> BoxedStrategy<OutlineCase> {
+        (gt::choices(170), gt::choices(80)).prop_map(|(task, outline)| OutlineCase { task, outline }).boxed()
+    }
+    fn rule(&self) -> String {
+        "external task valid by construction with a generated proof outline (1-4 entries: definitions, lemmas with free or quantified variables and without predicates, inductive lemmas whose induction variable is re-bound inside or shares its name with a general variable; every direction annotation) x flags; oracle as in part well-formed: every emitted problem, including the *_outline_* problems with base cases and inductive steps, passes the strict TFF reader and type checker, and problem names are distinct; non-trivial = an outline problem was emitted; distinct by problem text".into()
+    }
+    fn run(&self, case: &OutlineCase) -> Outcome {
+        let mut c = Chooser::new(case.task.clone());
+        let task = gt::external_task(&mut c);
+        let flags = gt::flags(&mut c);
+        let mut oc = Chooser::new(case.outline.clone());
+        let entries = crate::checks::c13::outline(&mut oc, &task);
+        let spec = fol::Specification {
+            formulas: entries.iter().map(|e| e.formula.clone()).collect(),
+        };
+        let description = format!(
+            "{}\n  outline: {}\n  flags: {}",
+            describe_external(&task),
+            safe_print::specification(&spec, &Style::plain()),
+            flags.describe()
+        );
+        let problems = match ops::external_problems(&task, &spec, &flags, false) {
+            Ok((p, _)) => p,
+            Err(_) => return Outcome::skip("task with outline refused (reported by C13)"),
+        };
+        let mut key = String::new();
+        let mut names = BTreeSet::new();
+        let mut outline_problems = 0;
+        for p in &problems {
+            if !names.insert(p.name.clone()) {
+                return Outcome::fail("duplicate-problem-name", format!("C09: two problems are named {}\n{description}", p.name));
+            }
+            if let Err((sig, msg)) = check_problem(p) {
+                return Outcome::fail(sig, format!("C09: {msg}\n{description}\n--- problem text ---\n{}", tail(&p.text)));
+            }
+            if p.name.contains("outline") {
+                outline_problems += 1;
+            }
+            key.push_str(&p.text[p.text.len().saturating_sub(300)..]);
+        }
+        Outcome::pass(outline_problems > 0, hash64(&key)).label(format!("outline-problems={}", outline_problems.min(6))).readable(description)
+    }
+    fn describe(&self, case: &OutlineCase) -> Value {
+        json!({"task": case.task, "outline": case.outline})
+    }
+    fn from_replay(&self, j: &Value) -> Option<OutlineCase> {
+        let v = |k: &str| -> Option<Vec<u16>> { Some(j[k].as_array()?.iter().map(|x| x.as_u64().unwrap() as u16).collect()) };
+        Some(OutlineCase { task: v("task")?, outline: v("outline")? })
+    }
+}
